@@ -165,22 +165,34 @@ Theorem C15_vpls_index_injective : forall v1 v2, wf_vpls v1 -> wf_vpls v2 ->
   vpls_index (make_vpls v1) = vpls_index (make_vpls v2) -> v1 = v2.
 Proof. exact vpls_index_injective. Qed.
 
-(* ---- RTC (RFC 4684) *)
+(* ---- RTC (RFC 4684): a prefix of 0 (wildcard) or 32..96 bits; the NLRI takes the length octet and
+        ceil(length / 8) octets; the object keeps the 13-octet zero padded form *)
+
+(* every legal length: decode (encode p ++ rest) = (p, rest) *)
+Theorem C15_rtc_roundtrip_any_length : forall p rest,
+  wf_rtc p -> unpack_rtc (pack_rtc p ++ rest) = Some (p, rest).
+Proof. exact rtc_roundtrip_any_length. Qed.
 
 Theorem C15_rtc_roundtrip : forall origin rt rest,
   0 <= origin < 4294967296 -> wf_rt rt ->
-  unpack_rtc (make_rtc origin (Some rt) ++ rest) = Some (make_rtc origin (Some rt), rest)
+  unpack_rtc (pack_rtc (make_rtc origin (Some rt)) ++ rest) = Some (make_rtc origin (Some rt), rest)
   /\ rtc_origin (make_rtc origin (Some rt)) = origin
   /\ rtc_rt (make_rtc origin (Some rt)) = Some (reset_flags (hd 0 rt) :: tl rt).
 Proof. exact rtc_roundtrip. Qed.
 
 Theorem C15_rtc_wildcard_roundtrip : forall origin rest,
-  unpack_rtc (make_rtc origin None ++ rest) = Some (make_rtc origin None, rest).
+  unpack_rtc (pack_rtc (make_rtc origin None) ++ rest) = Some (make_rtc origin None, rest).
 Proof. exact rtc_wildcard_roundtrip. Qed.
 
+(* whatever the decoder accepts has a legal length, consumed exactly rtc_size(length) octets, is stored well
+   formed, and re-encodes to the consumed octets when the two flag bits of the route target type octet (present
+   when the prefix is longer than 32 bits) were clear; the bits beyond the prefix inside its last octet are kept *)
 Theorem C15_rtc_canonical : forall data p rest,
   wfb data -> unpack_rtc data = Some (p, rest) ->
-  (nth 0 data 0 <> 0 -> nth 5 data 0 < 64) -> p ++ rest = data.
+  rtc_len_ok (nth 0 data 0)
+  /\ (exists consumed, data = consumed ++ rest /\ zlen consumed = rtc_size (nth 0 data 0)
+        /\ ((32 < nth 0 data 0 -> nth 5 data 0 < 64) -> pack_rtc p = consumed))
+  /\ (nth 0 data 0 <> 0 -> wf_rtc p).
 Proof. exact rtc_canonical. Qed.
 
 Theorem C15_rtc_index_injective : forall o1 o2 rt1 rt2,
@@ -320,6 +332,7 @@ Print Assumptions C15_vpls_no_trailing.
 Print Assumptions C15_vpls_canonical.
 Print Assumptions C15_vpls_index_injective.
 Print Assumptions C15_rtc_roundtrip.
+Print Assumptions C15_rtc_roundtrip_any_length.
 Print Assumptions C15_rtc_wildcard_roundtrip.
 Print Assumptions C15_rtc_canonical.
 Print Assumptions C15_rtc_index_injective.
